@@ -152,7 +152,7 @@ class Exp:
         seq, secret = self.params
         t = self.ttag
         n = len(seq)
-        self.cls = f'n={"2^k" if n & (n - 1) == 0 else "!=2^k"}' + (':secret-elements' if secret else '')
+        self.cls = ("n=2^k" if n & (n - 1) == 0 else "n!=2^k") + (':secret-elements' if secret else '')
         sup = {}
         for v in seq:
             sup[norm(t, v)] = sup.get(norm(t, v), 0) + Fraction(1, n)
@@ -485,6 +485,31 @@ def install_classifier(seam):
     seam._c33 = True
 
 
+class CpuTimeout(BaseException):
+    """not an Exception: must not be swallowed by the code under test"""
+
+
+class Deadline:
+    """CPU-time budget for one experiment (a loop that never ends is a violation, not a hanging check)."""
+
+    def __init__(self, seconds):
+        self.seconds = seconds
+
+    def _fire(self, *_):
+        raise CpuTimeout()
+
+    def __enter__(self):
+        import signal
+        self.old = signal.signal(signal.SIGPROF, self._fire)
+        signal.setitimer(signal.ITIMER_PROF, self.seconds)
+
+    def __exit__(self, *exc):
+        import signal
+        signal.setitimer(signal.ITIMER_PROF, 0)
+        signal.signal(signal.SIGPROF, self.old)
+        return False
+
+
 class Tree:
     """Exact distribution of one experiment up to D outcome draws."""
 
@@ -603,7 +628,16 @@ def run_tree_job(job):
                 flawed.append(1)
                 part.violation(exp.key('shape', bad[0]), f'{exp.describe()} returned {bad[1]} for random bits {bits or "-"}',
                                dict(detail, script={str(i): v for i, b, v in draws}))
-        tree = enumerate_tree(run, D, on_run)
+        budget = 150 if job.get('tier') != 'thorough' else 600
+        try:
+            with Deadline(budget):
+                tree = enumerate_tree(run, D, on_run)
+        except CpuTimeout:
+            part.violation(exp.key('hangs'), f'{exp.describe()}: no end within {budget} s of CPU time (last random bits: '
+                           f'{[v for _, _, v in seam.log[-12:]]})', detail)
+            part.caps.append(f'CPU budget hit in {fname}')
+            sp.setup(sec_param=K_SP, no_prss=True)
+            continue
         if tree.nondet is not None:
             part.note('harness_errors', [f'{exp.describe()}: forced prefix {tree.nondet[0]} not reproduced: {tree.nondet[1]}'])
             continue
@@ -700,6 +734,15 @@ EXPS_MP = []
 def run_mp_job(job):
     global EXPS_MP
     EXPS_MP = [(f, t, detuple(p)) for f, t, p in job['exps']]
+    if not getattr(exact, '_c33_horizon', False):       # a stuck execution must end soon (normal batches need < 10^5 steps)
+        make = exact.make_world
+
+        def make_world(*a, **k):
+            w = make(*a, **k)
+            w.HORIZON = 600_000
+            return w
+        exact.make_world = make_world
+        exact._c33_horizon = True
     part = exact.run_mp('C33', job, build_mp(job['reps']), batch=job.get('batch', 12), patterns=tuple(job['patterns']))
     # keys of the generic engine name the operation (with its parameters): re-key by function / type / input class
     byname = {f'{f}:{t}:{p!r}': Exp(f, t, p) for f, t, p in EXPS_MP}
@@ -735,7 +778,7 @@ WEIGHT = {'random_derangement': 40, 'shuffle': 6, 'random_permutation': 6, 'samp
 def jobs(tier, seed):
     out = []
     exps = experiments(tier)
-    njobs = 24 if tier == 'quick' else 40
+    njobs = 24 if tier == 'quick' else 36
     bins = [[0, []] for _ in range(njobs)]
     for e in sorted(exps, key=lambda e: -WEIGHT[e[0]] * (3 if e[1] == 'fxp' else 1)):
         b = min(bins, key=lambda b: b[0])
@@ -747,7 +790,7 @@ def jobs(tier, seed):
     mpx = mp_experiments(tier)
     for (m, t) in ((3, 1), (5, 2)):
         for no_prss in (False, True):
-            parts = 4 * (1 if tier == 'quick' else 2)
+            parts = 4
             for fxp in (False, True):
                 mine = [e for e in mpx if (e[1] == 'fxp') == fxp]
                 for p in range(parts if not fxp else max(1, parts // 2)):
